@@ -1,0 +1,20 @@
+//go:build verif
+
+// Contracts for package localnonvcs, checked by /verif (govc). Comment-only; compiled only under -tags verif.
+// fsFile is the ghost file system (path -> contents) of /verif/stubs/stdlib.spec.
+package localnonvcs
+
+// C13 (every manifest entry's path names a file holding the signed endorsement that was written for it): the local
+// store writes each given file whole - after a successful call every path holds exactly the contents given for it
+// (the last one, if a path is given twice), and no other path has changed.
+//@ func (*changeOps).WriteOrCreateFiles
+//@   requires forall(k, 0 <= k && k < len(files) ==> files[k] != nil)
+//@   assigns nothing
+//@   modifies fsFile
+//@   sweep[C13]
+//@   ghostparam a Int
+//@   ghostparam n String
+//@   ensures[C13] err == nil && 0 <= a && a < len(files) && forall(j, Int, a < j && j < len(files) ==> files[j].Path != files[a].Path) ==> fsFile[files[a].Path] == val(files[a].Contents)
+//@   ensures[C13] forall(k, Int, 0 <= k && k < len(files) ==> files[k].Path != n) ==> fsFile[n] == old(fsFile)[n]
+//@   loop 1 invariant[C13] 0 <= a && a <= rangeindex && forall(j, Int, a < j && j <= rangeindex ==> files[j].Path != files[a].Path) ==> fsFile[files[a].Path] == val(files[a].Contents)
+//@   loop 1 invariant[C13] forall(k, Int, 0 <= k && k <= rangeindex ==> files[k].Path != n) ==> fsFile[n] == old(fsFile)[n]
